@@ -31,6 +31,8 @@ func TestMain(m *testing.M) {
 	flag.Parse()
 	count("processes_with_gomaxprocs_"+strconv.Itoa(runtime.GOMAXPROCS(0)), 1)
 	code := m.Run()
+	count("sim_pool_gets", int64(simrt.PoolGets))
+	count("sim_pool_reuses", int64(simrt.PoolReuses))
 	writeStats()
 	os.Exit(code)
 }
